@@ -126,6 +126,11 @@ def prove(ctx, module, theorems, files):
             except Exception as e:  # noqa: BLE001
                 ctx.count("translator_failed:" + name)
                 ctx.notes.append(f"{name} failed: {type(e).__name__}: {e}")
+        from . import pins
+        for f, diff in pins.check(ctx.prop):
+            ctx.obligation("source-pin:" + f, False, "the file is not the text the hand model was last compared with")
+            ctx.breakage("translation", "an anchor file of this property is no longer the source text the hand-written model was "
+                         "last validated against (comments / layout / docstrings aside): " + f, diff=diff)
         ok, out, dt = lake.build([module, "d42model"])
         ax_result = lake.audit(module, theorems, ctx.prop) if ok else None
     ctx.cov["lake_build_s"] = round(dt, 2)
